@@ -10,6 +10,7 @@ import (
 	"encoding/json"
 	"fmt"
 	"os"
+	"syscall"
 )
 
 type handler func(in map[string]any) string
@@ -87,9 +88,17 @@ func main() {
 		fmt.Fprintln(os.Stderr, "unknown domain", os.Args[1])
 		os.Exit(2)
 	}
+	// protocol output goes to the original stdout; anything Zeno logs to fd 1 is sent to stderr
+	realFd, derr := syscall.Dup(1)
+	if derr != nil {
+		fmt.Fprintln(os.Stderr, "dup:", derr)
+		os.Exit(2)
+	}
+	_ = syscall.Dup2(2, 1)
+	realOut := os.NewFile(uintptr(realFd), "protocol-out")
 	h := mk()
 	in := bufio.NewReaderSize(os.Stdin, 1<<20)
-	out := bufio.NewWriter(os.Stdout)
+	out := bufio.NewWriter(realOut)
 	defer out.Flush()
 	for {
 		line, err := in.ReadBytes('\n')
